@@ -169,3 +169,10 @@ Theorem C17_clean_variance_early_return_refuted :
   exists (c : list pt), clean_curve tol c = Ok [] /\ 100 * tol < spread (map fst c).
 Proof. exact clean_variance_early_return_refuted. Qed.
 Print Assumptions C17_clean_variance_early_return_refuted.
+
+(* REFUTED (same relative band, severe form): a curve whose abscissas all lie within 1e-5*|x0| of the first one, but spread
+   by 0.25 (> 100000 tol), makes clean_composite_curve RAISE (IndexError) - end to end the whole service call fails *)
+Theorem C17_relative_band_raises_refuted :
+  exists (c : list pt), clean_curve tol c = Err EIndex /\ 100000 * tol < spread (map fst c).
+Proof. exact clean_relative_band_raises_refuted. Qed.
+Print Assumptions C17_relative_band_raises_refuted.
